@@ -290,11 +290,17 @@ func (e *explainer) solveBodyRec(premises []ast.Term, uf unionfind.UnionFind, de
 	case ast.Atom:
 		return e.solveAtomPremise(p, rest, uf, depth, need, accAtoms, accProofs, partial)
 	case ast.Eq:
-		ok, err := evalEq(p.Left, p.Right, uf, true)
-		if err != nil || !ok {
+		// As the engine does (premiseEq): evaluate both sides and unify, so
+		// that an equality can bind a variable that later premises use.
+		left, right, err := functional.EvalBaseTermPair(p.Left, p.Right, uf)
+		if err != nil {
 			return nil
 		}
-		return e.solveBodyRec(rest, uf, depth, need, accAtoms, accProofs, partial)
+		extended, err := unionfind.UnifyTermsExtend([]ast.BaseTerm{left}, []ast.BaseTerm{right}, uf)
+		if err != nil {
+			return nil
+		}
+		return e.solveBodyRec(rest, extended, depth, need, accAtoms, accProofs, partial)
 	case ast.Ineq:
 		ok, err := evalEq(p.Left, p.Right, uf, false)
 		if err != nil || !ok {
